@@ -119,7 +119,7 @@ options_get_info(options_t     *options,     /* global options */
     if (options->all_chunk == 1 && options->all_comp == 0) {
         /* NONE option */
         if (options->chunk_g.rank == -2) {
-            chunk_flags = HDF_NONE;
+            *chunk_flags = HDF_NONE;
         }
 
         /*check if the input rank is correct (warn this one cannot be chunked) */
@@ -210,8 +210,9 @@ options_get_info(options_t     *options,     /* global options */
                 *comp_type = obj->comp.type;
                 *info      = obj->comp.info;
                 *szip_mode = obj->comp.szip_mode;
-                /* check if we have also CHUNK info  */
-                if (obj->chunk.rank > 0) {
+                /* check if we have also CHUNK info, given with the options or kept from the input object */
+                if (obj->chunk.rank > 0 ||
+                    (obj->chunk.rank != -2 && (*chunk_flags == HDF_CHUNK || *chunk_flags == (HDF_CHUNK | HDF_COMP)))) {
                     *chunk_flags              = HDF_CHUNK | HDF_COMP;
                     chunk_def->comp.comp_type = *comp_type;
                     switch (*comp_type) {
